@@ -339,6 +339,52 @@ theorem corrupt_ignored (s : Sys) (i : Nat) (wc : Bool) (ch : List Nat) (hi : i 
   rw [getW_modAt _ _ _ hi]
   simp [hl, hd]
 
+/-- **A corrupt, foreign or missing cache file never makes start-up fail.** `PeersArgs::get_bootstrap_addr` (the
+path antnode, the CLI and the client take to find their first peers) gives, over an unparsable cache file, exactly
+the result it gives with no cache file at all — whatever the flags, `--peer` arguments, `ANT_PEERS` and `count`;
+and over ANY file content it succeeds whenever it succeeds without a cache file (the cache only ever adds
+addresses). Depends on the load result being consumed with `if let Ok(..)` (`startupIgnoresLoadError`, read off
+the source). -/
+theorem startup_ignores_corrupt_cache (cfg : Cfg) (ch ord : List Nat) (now : Nat) (args : StartArgs) (env : List Ma) :
+    startup cfg ch ord now args env .garbage = startup cfg ch ord now args env .absent := by
+  simp [startup, load, startupIgnoresLoadError]
+
+theorem startup_never_fails_because_of_cache (cfg : Cfg) (ch ord : List Nat) (now : Nat) (args : StartArgs)
+    (env : List Ma) (file : File) (h : okB (startup cfg ch ord now args env .absent) = true) :
+    okB (startup cfg ch ord now args env file) = true := by
+  simp only [startup, load, startupIgnoresLoadError, Bool.true_or, if_true] at h ⊢
+  split
+  · rfl
+  · rw [if_neg (by assumption)] at h
+    split
+    · rfl
+    · rw [if_neg (by assumption)] at h
+      split
+      · rfl
+      · rw [if_neg (by assumption)] at h
+        split
+        · rfl
+        · rw [if_neg (by assumption)] at h
+          split
+          · rw [if_pos (by assumption)] at h; exact h
+          · rw [if_neg (by assumption)] at h
+            have hne : (List.map (startAddr now) (List.filterMap craft args.addrs)).isEmpty = false := by
+              simp only [finish] at h
+              split at h
+              · simp [okB] at h
+              · rename_i hx; simpa using hx
+            cases file with
+            | absent => exact h
+            | garbage => exact h
+            | data c =>
+              simp only [finish]
+              have : (List.map (startAddr now) (List.filterMap craft args.addrs) ++
+                  cachePicks ord (if loadCleans = true then cleanup cfg ch now c else c)).isEmpty = false := by
+                cases hl : List.map (startAddr now) (List.filterMap craft args.addrs) with
+                | nil => simp [hl] at hne
+                | cons x t => simp
+              simp [this, okB]
+
 /-! ## Non-vacuity and concrete instances -/
 
 def q (ip port p : Nat) : Ma := [.ip4 ip, .udp port, .quic, .p2p p]
@@ -395,3 +441,5 @@ end SafeNet.Props.C18
 #print axioms SafeNet.Props.C18.concurrent_flush_loadable
 #print axioms SafeNet.Props.C18.commit_leaves_cache
 #print axioms SafeNet.Props.C18.corrupt_ignored
+#print axioms SafeNet.Props.C18.startup_ignores_corrupt_cache
+#print axioms SafeNet.Props.C18.startup_never_fails_because_of_cache
